@@ -76,6 +76,10 @@ verus! {
 //@verify extend_context_with_wild_cards
 //@assume parse_and_minimize_extended_formula
 //@verify parse_and_validate_extended
+//@verify _model_check_multiple_extended_formulae_dirty
+//@verify model_check_multiple_extended_formulae_dirty
+//@verify _model_check_extended_formula_dirty
+//@verify model_check_extended_formula_dirty
 
 fn main() {}
 } // verus!
